@@ -7,6 +7,7 @@ import (
 	"time"
 
 	"github.com/sirupsen/logrus"
+	"github.com/tilinna/clock"
 
 	"github.com/atlassian/gostatsd"
 )
@@ -16,11 +17,12 @@ import (
 // symbolic clock) and constructPost against a symbolic per-attempt fault script, 1..2 batches,
 // 0..2 free request buffers (so batches may queue on the semaphore), the flush context possibly
 // cancelled while an attempt is in flight.
-func VerifC16_Influx() {
-	up := &verifC16Upstream{max: 3, okStatus: 204}
-	ctx, cancel := context.WithCancel(context.Background())
+func verifC16Influx(maxAttempts int, inflightCancel bool) {
+	clk := verifNewStepClock()
+	up := &verifC16Upstream{max: maxAttempts, okStatus: 204, clk: clk, window: 30 * time.Second}
+	ctx, cancel := context.WithCancel(clock.Context(context.Background(), clk))
 	defer cancel()
-	if nondetBool() {
+	if inflightCancel && nondetBool() {
 		up.cancel = cancel
 	}
 	// 0 buffers: every request buffer is held by a request of an earlier flush that is still
@@ -56,7 +58,12 @@ func VerifC16_Influx() {
 	verifAssert(len(idb.reqBufferSem) == nbuf || up.cancelled, "influxdb: every request buffer is back in the pool after the flush")
 }
 
+// quick: up to 3 attempts, shutdown only just before the flush; Full: shutdown also while an
+// attempt is in flight
+func VerifC16_Influx()     { verifC16Influx(3, false) }
+func VerifC16_InfluxFull() { verifC16Influx(3, true) }
+
 func VerifC16_InfluxTwin() {
-	VerifC16_Influx()
+	verifC16Influx(1, false)
 	verifAssert(false, "twin-false")
 }
